@@ -53,7 +53,7 @@ theorem source_detectors_are_the_models (s : Session) (consumed : Bytes → Nat)
     classify s consumed it =
       (if Gen.initialGap it.latest.isNone it.cur.nonce (s.nonce it.cur.sender) then .dropSender
        else if Gen.middleGap it.latest.isNone it.cur.nonce (it.latest.getD 0 : Nat) then .dropSender
-       else if decide (consumed it.cur.payer + it.cur.fee > s.balance it.cur.payer) then .dropSender
+       else if Gen.feeExceedsBalance it.cur.fee false 0 0 (consumed it.cur.payer) (s.balance it.cur.payer) then .dropSender
        else if Gen.lowerNonce it.cur.nonce (s.nonce it.cur.sender) then .skipTx
        else if s.badGuard it.cur then .skipTx
        else if Gen.nonceDuplicate it.latest.isNone it.cur.nonce (it.latest.getD 0 : Nat) then .skipTx
